@@ -124,8 +124,8 @@ def to_expr(o):
     mod = "serialize_ast" if type(o).__name__ == "SerializableAst" else "pytd"
     args = ", ".join("%s=%s" % (f, to_expr(getattr(o, f))) for f in o.__struct_fields__
                      if not (f == "_name2item" and not getattr(o, f)))
-    if type(o).__name__ in ("UnionType", "IntersectionType"):
-      # the constructor flattens; rebuild exactly what is there
+    if type(o).__name__ in ("UnionType", "IntersectionType") and not _ctor_is_identity(o):
+      # the constructor flattens and drops duplicates; rebuild exactly what is there
       return "force(%s.%s(type_list=(pytd.AnythingType(),)), 'type_list', %s)" % (
           mod, type(o).__name__, to_expr(o.type_list))
     return "%s.%s(%s)" % (mod, type(o).__name__, args)
@@ -138,6 +138,14 @@ def to_expr(o):
   if isinstance(o, dict):
     return "{" + ", ".join("%r: %s" % (k, to_expr(v)) for k, v in o.items()) + "}"
   return repr(o)
+
+
+def _ctor_is_identity(u):
+  try:
+    return type(u)(type_list=u.type_list).type_list == u.type_list and all(
+        x is y or type(x) is type(y) for x, y in zip(type(u)(type_list=u.type_list).type_list, u.type_list))
+  except Exception:  # pylint: disable=broad-except
+    return False
 
 
 def force(obj, field, value):
